@@ -261,6 +261,23 @@ fn builtin_exec(n: usize, ctor: u8, ops: &[(char, usize, usize, i64)]) -> Option
                     t.modify(l, r, &d); ts.modify(l, r, &d); tmn.modify(l, r, &d); tmx.modify(l, r, &d);
                     plain_ok = false;
                 }
+                'r' => {
+                    // a construction in the middle of the history: every tree is rebuilt from the items its own point queries return
+                    // (such items may carry whatever bookkeeping the tree left in them; as elements they still stand for their value)
+                    let it: Vec<Nest> = (0..n).map(|i| t.ask(i, i)).collect();
+                    t = if d % 2 == 0 { Segtree::from_slice(&it) } else { Segtree::from_iter(it.into_iter()) };
+                    let it: Vec<SumAdd<i64>> = (0..n).map(|i| ts.ask(i, i)).collect(); ts = Segtree::from_slice(&it);
+                    let it: Vec<MinAdd<i64>> = (0..n).map(|i| tmn.ask(i, i)).collect(); tmn = Segtree::from_slice(&it);
+                    let it: Vec<MaxAdd<i64>> = (0..n).map(|i| tmx.ask(i, i)).collect(); tmx = Segtree::from_slice(&it);
+                }
+                'n' => {
+                    // construct-by-fill from an item a query returned: n copies of the element at l
+                    let (f1, f2, f3, f4) = (t.ask(l, l), ts.ask(l, l), tmn.ask(l, l), tmx.ask(l, l));
+                    t = Segtree::new(n, f1); ts = Segtree::new(n, f2); tmn = Segtree::new(n, f3); tmx = Segtree::new(n, f4);
+                    let x = a[l];
+                    a = vec![x; n];
+                    plain_ok = false;
+                }
                 _ => {
                     let want = (a[l..=r].iter().sum::<i64>(), *a[l..=r].iter().min().unwrap(), *a[l..=r].iter().max().unwrap());
                     let g = t.ask(l, r);
@@ -320,7 +337,7 @@ pub fn run(seed: u64, replay: Option<String>, c02: bool) -> Outcome {
                 let l = rng.below(n as u64) as usize;
                 let r = l + rng.below((n - l) as u64) as usize;
                 let d = rng.below(9) as i64 - 4;
-                ops.push(match rng.below(5) { 0 => ('s', l, l, d), 1 | 2 => ('m', l, r, d), _ => ('a', l, r, 0) });
+                ops.push(match rng.below(7) { 0 => ('s', l, l, d), 1 | 2 => ('m', l, r, d), 5 => ('r', 0, 0, d), 6 => ('n', l, l, 0), _ => ('a', l, r, 0) });
             }
             cases += 1;
             if builtin_exec(n, ctor, &ops).is_some() {
